@@ -44,6 +44,22 @@ pub fn gen(tier: &str, seed: u64) -> Gen {
         cases.push(ts(&format!("{}{}", PREFIX, s)));
     }
     fams.push(("structured scripts with one syntax fault injected at a random position".to_string(), nrand, false));
+    // comments with runs of backslashes before the newline (an even run ends the comment, an odd run
+    // continues it), each followed by a line that is well formed or has a syntax fault
+    let mut nc = 0;
+    for run in 0..5 {
+        for text in &["# note", "# C:\\dir", "#"] {
+            for next in &["rec after", "set x {", "set y \"abc", "rec [rec q", "rec {a}b", "rec ok $a("] {
+                for tail in &["", "\nrec last"] {
+                    let script = format!("rec first\n{}{}\n{}{}", text, "\\".repeat(run), next, tail);
+                    cases.push(ts(&format!("{}{}", PREFIX, script)));
+                    cases.push(ts(&script));
+                    nc += 2;
+                }
+            }
+        }
+    }
+    fams.push(("comments ending in runs of 0-4 backslashes x a following well-formed or ill-formed line".to_string(), nc, true));
     (cases, fams)
 }
 
